@@ -1595,6 +1595,20 @@ def instances(tier: str) -> List[Tuple[str, tuple, dict, Callable[..., Callable[
             seen_rooms[name] = seen_rooms.get(name, 0) + 1
             if deep or seen_rooms[name] <= 2:
                 I.append((name, a[:2] + ([list(reversed(r)) for r in a[2]],) + a[3:], kw, rule))
+    if deep:
+        # larger boards for the cell-answer puzzles (thorough tier only)
+        I += [("aquarium", (3, 3, [[(0, 0), (1, 0), (2, 0), (2, 1)], [(0, 1), (0, 2), (1, 2)], [(1, 1)], [(2, 2)]], [-1, 1, -1], [2, -1, -1]), {}, rule_aquarium),
+              ("aquarium", (3, 3, [[(0, 0), (0, 1), (0, 2), (1, 0), (1, 2), (2, 0), (2, 2)], [(1, 1), (2, 1)]], [-1, -1, -1], [-1, -1, -1]), {}, rule_aquarium),
+              ("creek", (3, 3, [[-1, -1, -1, -1], [-1, 2, -1, -1], [-1, -1, 3, -1], [0, -1, -1, -1]]), {}, rule_creek),
+              ("gokigen", (3, 3, [[-1, -1, -1, -1], [-1, 2, -1, 1], [-1, -1, 4, -1], [0, -1, -1, -1]]), {}, rule_gokigen),
+              ("magnets", (2, 4, [[True, False, False, False], [True, False, False, False]], [[False, False, True, True], [False] * 4],
+                           [[-1, -1], [-1, -1]], [[-1, -1], [-1, 1], [1, -1], [-1, -1]]), {}, rule_magnets),
+              ("nurimaze", (3, 4, [[1, 1, 0], [1, 1, 1], [1, 1, 1]], [[1, 1, 1, 1], [1, 0, 1, 1]], [[0, 0, 0, 0], [0, 1, 0, 0], [0, 0, 0, 2]], (0, 0), (2, 3)), {}, rule_nurimaze),
+              ("norinori", (3, 4, [[(0, 0), (0, 1), (1, 0)], [(0, 2), (0, 3), (1, 3), (1, 2)], [(1, 1), (2, 0), (2, 1), (2, 2), (2, 3)]]), {}, rule_norinori),
+              ("nurikabe", (3, 4, [[2, 0, 0, 0], [0, 0, 0, 0], [0, 0, 0, 3]]), {}, rule_nurikabe),
+              ("akari", (3, 4, [[W_, W_, 1, W_], [W_, -1, W_, W_], [W_, W_, W_, 0]]), {}, rule_akari),
+              ("heyawake", (3, 4, [[(0, 0), (0, 1), (1, 0), (1, 1)], [(0, 2), (0, 3)], [(1, 2), (1, 3), (2, 2), (2, 3)], [(2, 0), (2, 1)]], [2, -1, -1, 0]), {}, rule_heyawake),
+              ("putteria", (3, 4, [[(0, 0), (0, 1), (1, 0)], [(0, 2), (0, 3)], [(1, 1), (1, 2), (2, 1)], [(1, 3), (2, 3), (2, 2)], [(2, 0)]]), {}, rule_putteria)]
     # sudoku: decided through constraint-wise soundness and pairwise refutation (all boards of that order)
     I += [("sudoku", ([[1, 0, 0, 2], [0, 0, 0, 0], [0, 0, 0, 0], [3, 0, 0, 4]],), {"n": 2}, decide_sudoku),
           ("sudoku", ([[0] * 9 for _ in range(8)] + [[0, 0, 0, 0, 0, 0, 0, 0, 7]],), {"n": 3}, decide_sudoku)]
